@@ -13,7 +13,7 @@ THEOREMS = [
     "utf16_roundtrip", "utf16_roundtrip_converse", "externalize_invalid_byte", "internalize_lone_low", "internalize_lone_high_end",
     "internalize_high_then_any", "roundtrip_scalar", "roundtrip", "roundtrip_negzero", "roundtrip_nilmap", "roundtrip64_exact",
     "roundtrip64_beyond", "mk64_exact", "documented_table_ext", "documented_table_back", "wrapper_stable", "wrapper_injective",
-    "wrapper_call_spec", "tag_key_spec", "tag_key_byte_escaped_denotes_bytes", "tag_key_byte_escaped_counterexample", "callback_guard", "callback_guard_raised", "scheduler_never_calls_noGoroutine", "callback_guard_witness", "callback_guard_old_counterexample",
+    "wrapper_call_spec", "tag_key_spec", "tag_key_byte_escaped_denotes_bytes", "tag_key_byte_escaped_counterexample", "callback_guard", "callback_guard_raised", "cur_reset_after_every_activation", "callback_block_rejected", "scheduler_never_calls_noGoroutine", "callback_guard_witness", "callback_guard_old_counterexample",
 ]
 
 INT_KINDS = {"Ti": (-2 ** 31, 2 ** 31 - 1), "Ti8": (-128, 127), "Ti16": (-2 ** 15, 2 ** 15 - 1), "Ti32": (-2 ** 31, 2 ** 31 - 1),
@@ -600,6 +600,73 @@ def gen_guard_ops(g, tier):
 
 # ---------------------------------------------------------------------------------------------------------------
 
+def gen_hist_ops(g, tier):
+    """histories of JavaScript-side events over the real $go / $goroutine / $runScheduled: goroutines started from callbacks
+    (scripts of sends, receives, selects, returns and unrecovered panics), channel operations in callbacks, timers."""
+    rng = g.rng
+    scripts = [(0, "go_p|cbrecv|go_s5|cbrecv|tick"), (0, "go_r|go_r.p|cbsend_1|cbsend_2|cbsend_3|tick|cbrecv"),
+               (1, "go_s1.s2.s3|cbrecv|cbrecv|cbrecv|cbrecv|go_-|go_x.s1"), (0, "go_r.p|go_r|go_s1.s2|tick|cbrecv|tick"),
+               (0, "go_l0:s5+r|go_l3:r+s6|cbsel_0_r.s7|cbsel_0_d|go_r|go_p|go_s9|tick|tick"), (0, "go_p|cbsend_1|cbsel_0_s1.r|go_p|cbrecv"),
+               (2, "go_s1.p|cbsend_2|cbsend_3|cbrecv|go_r.r.r.p|cbsend_4|tick|cbsend_5"), (0, "go_r.s2.p|go_r|cbsend_1|tick|cbrecv|cbsend_3")]
+
+    def gop():
+        k = rng.random()
+        if k < 0.3:
+            return "s%d" % rng.randrange(1, 10)
+        if k < 0.6:
+            return "r"
+        if k < 0.72:
+            cases = [rng.choice(["r", "s%d" % rng.randrange(1, 10), "d"]) for _ in range(rng.randrange(1, 4))]
+            if cases.count("d") > 1:
+                cases = [c for c in cases if c != "d"] + ["d"]
+            return "l%d:%s" % (rng.randrange(0, 12), "+".join(cases))
+        if k < 0.9:
+            return "p"
+        return "x"
+
+    n = 2500 if tier == "thorough" else 500
+    for _ in range(n):
+        cap = rng.choice([0, 0, 1, 2])
+        evs = []
+        for _ in range(rng.randrange(2, 10)):
+            k = rng.random()
+            if k < 0.4:
+                ops = [gop() for _ in range(rng.randrange(0, 4))]
+                evs.append("go_" + (".".join(ops) if ops else "-"))
+            elif k < 0.58:
+                evs.append("cbsend_%d" % rng.randrange(1, 10))
+            elif k < 0.76:
+                evs.append("cbrecv")
+            elif k < 0.88:
+                cases = [rng.choice(["r", "s%d" % rng.randrange(1, 10), "d"]) for _ in range(rng.randrange(1, 4))]
+                if cases.count("d") > 1:
+                    cases = [c for c in cases if c != "d"] + ["d"]
+                evs.append("cbsel_%d_%s" % (rng.randrange(0, 12), ".".join(cases)))
+            else:
+                evs.append("tick")
+        scripts.append((cap, "|".join(evs)))
+    return ["jsconv hist %d %s" % s for s in scripts]
+
+
+def hist_kind(op, ans):
+    evs = op.split()[3]
+    outs = ans.split("|")
+    k = "hist"
+    if any(o.startswith("threw") for o in outs):
+        k += ":goroutine-panic"
+        after = False
+        for o in outs:
+            if after and o.startswith("err:cannot-block"):
+                k += ":then-blocked-callback-rejected"
+                break
+            after = after or o.startswith("threw")
+    elif "err:cannot-block" in ans:
+        k += ":blocked-callback-rejected"
+    if "timers=1" in ans:
+        k += ":timer-left"
+    return k
+
+
 def kind_of(op, ans):
     p = op.split()
     k = p[1]
@@ -620,7 +687,10 @@ def run(tier, seed):
                 "structs with exported/unexported fields, pointers, interfaces, *js.Object, funcs), JS values of matching and "
                 "mismatching shape (typed arrays of every class, lone surrogates, digit strings, wrappers); string transcoding: "
                 "all code points at encoding boundaries + a stride over all code points, every invalid lead byte, lone surrogates "
-                "in every context; callback-guard scripts (send/recv/select by goroutines and inside callbacks, controlled Math.random) on the real $send/$recv/$select/$block/$schedule. An op is non-trivial when "
+                "in every context; callback-guard scripts (send/recv/select by goroutines and inside callbacks, controlled Math.random) on the real $send/$recv/$select/$block/$schedule; HISTORIES of JavaScript-side "
+                "events over the real $go/$goroutine/$runScheduled (goroutines started from callbacks that send/receive/select/return/die of an "
+                "unrecovered panic which JavaScript catches, channel operations in callbacks, timers firing) with $curGoroutine, queues, run queue, "
+                "pending timers and counters compared after EVERY event. An op is non-trivial when "
                 "distinct (sha1 of the op line). (b,c) compiled programs under GopherJS+Node, expected values from the model; js-tagged struct fields "
                 "with tags drawn from identifiers, names needing bracket notation, non-ASCII (BMP / non-BMP), quotes / backslashes / </script>, "
                 "non-decimal number characters and random mixtures - each written from Go and read by JavaScript under the tag's UTF-16 name, "
@@ -702,6 +772,14 @@ def run(tier, seed):
     gmodel = C.run_driver("C11", gops)
     # callback_guard is proved at full strength for the model, so the model is the specification
     chk.compare("prelude-callback-guard", gops, C.run_node(gops), gmodel, kind=kind_of)
+
+    # ---------------- histories over the real scheduler: $curGoroutine === $noGoroutine after every event ----------------
+    hops = gen_hist_ops(g, tier)
+    hmodel = C.run_driver("C11", hops)
+    if any(" cur=cb " not in (" " + st + " ") for m in hmodel for st in m.split("|")):
+        raise RuntimeError("model violates its own proved invariant (cur = none after every event)")
+    # cur_reset_after_every_activation / callback_block_rejected are proved for the model, so the model is the specification
+    chk.compare("prelude-scheduler-history", hops, C.run_node(hops), hmodel, kind=hist_kind)
 
     # ---------------- (b), (c) compiled programs ----------------
     program_tie(chk, tier, g)
@@ -1360,6 +1438,56 @@ def tag_results(chk, j, v, obs, kind, info):
     chk.compare(tie, ops, lines, exp, kind=lambda o, a, kind=kind: "program:" + kind + ":" + o.split(" ")[1].split("=")[0])
 
 
+HISTORY_PROG = """package main
+
+import "github.com/gopherjs/gopherjs/js"
+
+func main() {
+	try := js.Global.Call("eval", "(function(f){ try { f(); return 'returned normally'; } catch (e) { return 'threw: ' + e.message; } })")
+	empty := make(chan int)
+	full := make(chan int, 1)
+	full <- 1
+	done := make(chan bool)
+	probe := make(chan int, 1)
+	js.Global.Call("setTimeout", func() {
+		// a goroutine started from a callback dies of an unrecovered panic; the JavaScript caller survives it
+		println("panic:", try.Invoke(func() { go func() { panic("boom") }() }).String())
+		// afterwards blocking operations in callbacks are still rejected and leave nothing behind
+		println("recv:", try.Invoke(func() { println("received", <-empty) }).String())
+		println("send:", try.Invoke(func() { full <- 2 }).String())
+		println("select:", try.Invoke(func() {
+			select {
+			case v := <-empty:
+				println("selected", v)
+			case full <- 3:
+				println("sent")
+			}
+		}).String())
+		println("queues:", len(full), cap(full))
+		// a second panicking goroutine, woken through a channel this time
+		wake := make(chan int)
+		go func() { <-wake; panic("bang") }()
+		println("panic2:", try.Invoke(func() { wake <- 1 }).String())
+		println("recv2:", try.Invoke(func() { <-empty }).String())
+		// goroutines started from the callback still run
+		go func() { probe <- 42 }()
+		select {
+		case v := <-probe:
+			println("go from callback ran:", v)
+		default:
+			println("go from callback did NOT run")
+		}
+		done <- true
+	}, 0)
+	<-done
+	println("main: finished")
+}
+"""
+HISTORY_EXPECT = ["panic: threw: boom", "recv: threw: " + GUARD_MSG[len("callback recovered: "):], "send: threw: " + GUARD_MSG[len("callback recovered: "):],
+                  "select: threw: " + GUARD_MSG[len("callback recovered: "):], "queues: 1 1", "panic2: threw: bang", "recv2: threw: " + GUARD_MSG[len("callback recovered: "):],
+                  "go from callback ran: 42", "main: finished"]
+
+
 def program_tie(chk, tier, g):
     """(b) self-checking compiled programs (GopherJS + Node only: there is no native twin of package js); (c) the guard."""
     from . import progs
@@ -1394,6 +1522,8 @@ def program_tie(chk, tier, g):
     meta.append(("guard", "recv"))
     jobs.append({"id": "guard-select", "files": {"main.go": GUARD_PROG % GUARD_SELECT}, "variants": ["plain"], "native": False, "timeout": 300})
     meta.append(("guard", "select"))
+    jobs.append({"id": "guard-history", "files": {"main.go": HISTORY_PROG}, "variants": ["plain", "minify"], "native": False, "timeout": 300})
+    meta.append(("history", HISTORY_EXPECT))
     tj, tm = tag_jobs(chk, tier)
     jobs += tj
     meta += tm
@@ -1410,6 +1540,14 @@ def program_tie(chk, tier, g):
             if obs[1] == "timeout":
                 raise RuntimeError("program %s timed out twice (loaded machine?)" % j["id"])
             tie = "program-%s:%s" % (kind, v)
+            if kind == "history":
+                exp = info
+                ops = ["guard-history line %d %s" % (i, e.split(":")[0]) for i, e in enumerate(exp)]
+                lines = (obs[0] + ["<missing>"] * len(exp))[:len(exp)]
+                chk.compare(tie, ops, lines, exp, kind=lambda o, a: "program:guard-history")
+                if obs[1] != "exit0":
+                    chk.add_mismatch(tie, "guard-history ending", impl=obs[1], spec="exit0")
+                continue
             if kind in ("tags", "defer"):
                 tag_results(chk, j, v, obs, kind, info)
                 continue
